@@ -125,17 +125,22 @@ pub fn spec(tier: Tier) -> Spec<G> {
 pub fn gen_family(t: &mut Tape, tier: Tier) -> Option<super::family::Family> {
     super::family::gen_family(t, tier, 9)
 }
+pub fn check_soak(s: &super::family::Soak, ctx: &mut Ctx) -> Result<(), Failure> {
+    super::family::check_soak(s, ctx, &check)
+}
 pub fn check_family(f: &super::family::Family, ctx: &mut Ctx) -> Result<(), Failure> {
     super::family::check_family(f, ctx, &check)
 }
 #[derive(Clone, Debug, serde::Serialize, serde::Deserialize)]
 #[serde(untagged)]
 pub enum Any {
+    Soak(super::family::Soak),
     Fam(super::family::Family),
     One(G),
 }
 pub fn check_any(c: &Any, ctx: &mut Ctx) -> Result<(), Failure> {
     match c {
+        Any::Soak(s) => check_soak(s, ctx),
         Any::Fam(f) => check_family(f, ctx),
         Any::One(g) => check(g, ctx),
     }
@@ -146,6 +151,8 @@ pub fn run(tier: Tier, seed: u64) -> i32 {
     let mut stats = engine::run_spec(&sp, tier, seed);
     let spf = Spec { id: "C03", rule: RULE, tape_len: 220, cases: tier.pick(24_000, 240_000), gen: gen_family, check: check_family, max_shrink_iters: 2000, shards: 16 };
     stats.merge(engine::run_spec(&spf, tier, seed ^ 0xfa3));
+    let sps = Spec { id: "C03", rule: RULE, tape_len: 700, cases: tier.pick(32, 320), gen: super::family::gen_soak, check: check_soak, max_shrink_iters: 60, shards: 16 };
+    stats.merge(engine::run_spec(&sps, tier, seed ^ 0x50a6));
     engine::run_regressions::<Any>("C03", check_any, &mut stats);
     let extra = super::fuzzrun::maybe_fuzz("C03", "graph_table", tier, seed, &mut stats, serde_json::json!({}));
     engine::finish("C03", tier, seed, RULE, stats, t0, extra, &["union-find reference model and exact rational arithmetic (num::BigRational) are correct", "table read through the sampler's serde serialisation (serde_json)"])
